@@ -370,14 +370,22 @@ func checkC16CLI(c YamlCLICase, r *rec.Rec) error {
 	writeFile(dir, "b.json", val.JSON(bv))
 	// json2yaml then yaml2json is the identity
 	for _, name := range []string{"a", "b"} {
-		res := runCLI(c.Bin, []string{"-t=json2yaml", "-o=" + name + ".yaml", name + ".json"}, nil, dir)
+		// the -yaml flag says how diffed documents are read; a translation names both formats itself
+		withYamlFlag := val.FNV64(c.A+"#"+c.B)%3 == 0
+		tflags := func(tr string) []string {
+			if withYamlFlag {
+				return []string{"-yaml", "-t=" + tr}
+			}
+			return []string{"-t=" + tr}
+		}
+		res := runCLI(c.Bin, append(tflags("json2yaml"), "-o="+name+".yaml", name+".json"), nil, dir)
 		if err := cliTrouble(res); err != nil {
 			return err
 		}
 		if res.Status != 0 {
 			return viol("%s -t=json2yaml %s.json exits %d: %s", c.Bin, name, res.Status, res.Stderr)
 		}
-		res = runCLI(c.Bin, []string{"-t=yaml2json", name + ".yaml"}, nil, dir)
+		res = runCLI(c.Bin, append(tflags("yaml2json"), name+".yaml"), nil, dir)
 		if err := cliTrouble(res); err != nil {
 			return err
 		}
